@@ -12,7 +12,10 @@ NModel == 5
 
 ModelAt(p) == [ns |-> p[1], list |-> p[2],
                choices |-> SelectSeq(<<p[3], p[4], p[5]>>, LAMBDA c : c # NoChoice)]
-Valid(p) == LET m == ModelAt(p) IN WellFormed(m) /\ Len(m.choices) <= MaxChoices /\ (p[4] = NoChoice => p[5] = NoChoice)
+\* (a compound field whose ONLY choice is a tokens choice has no type hint the context accepts -
+\*  List[List[int]] is refused - and no generator produces one: left out of the universe)
+Valid(p) == LET m == ModelAt(p) IN /\ WellFormed(m) /\ Len(m.choices) <= MaxChoices /\ (p[4] = NoChoice => p[5] = NoChoice)
+                                   /\ ~(Len(m.choices) = 1 /\ m.choices[1].tp = "ints")
 
 Init == parts = <<>>
 NextModel == /\ Len(parts) < NModel
